@@ -16,7 +16,7 @@ TRUSTED = TRUSTED_COMMON + ['the .npy reader in tools/translate.py (validated ag
 ASSUMES = ['farras and near_sym_a2 (non-compact level-1 tables no transform loads) are only compared for load consistency; the reference package does not ship them']
 
 BIORT = ['antonini', 'legall', 'near_sym_a', 'near_sym_b', 'near_sym_b_bp']
-QSHIFT = ['qshift_06', 'qshift_a', 'qshift_b', 'qshift_c', 'qshift_d', 'qshift_b_bp']
+QSHIFT = ['qshift_06', 'qshift_a', 'qshift_b', 'qshift_c', 'qshift_d', 'qshift_32', 'qshift_b_bp']
 
 
 def corr_jobs(tier, rng):
@@ -57,10 +57,17 @@ def oracle_run(cfg):
         for k in BIORT: snap[k] = [a.copy() for a in coeffs.biort(k)]
         for k in QSHIFT: snap[k] = [a.copy() for a in coeffs.qshift(k)]
         x = torch.randn(1, 1, 16, 16, dtype=torch.float64)
-        for b in BIORT[:4]:
-            for q in QSHIFT[:5]:
-                f = DTCWTForward(biort=b, qshift=q, J=2); i = DTCWTInverse(biort=b, qshift=q)
-                i(f(x))
+        from pytorch_wavelets.scatternet import ScatLayer, ScatLayerj2
+        for b in BIORT:
+            for q in QSHIFT:
+                # every consumer of every shipped table: the plain families through the DTCWT modules, the band-pass ones through the scattering layers
+                if b.endswith('_bp') != q.endswith('_bp'): continue
+                if b.endswith('_bp'):
+                    ScatLayer(biort=b).double()(x); ScatLayerj2(biort=b, qshift=q).double()(x)
+                else:
+                    f = DTCWTForward(biort=b, qshift=q, J=2); i = DTCWTInverse(biort=b, qshift=q)
+                    i(f(x))
+                    if b == 'near_sym_a': ScatLayerj2(biort=b, qshift=q).double()(x)
         for k in BIORT:
             if not all(np.array_equal(a, b) for a, b in zip(snap[k], coeffs.biort(k))):
                 return dict(detail='cached table %s changed after constructing/using transforms' % k)
@@ -112,8 +119,25 @@ def oracle_run(cfg):
     return None
 
 
+def qshift32_ortho(cfg, fail):
+    # exactly this table and this clause, and only the size of deviation the shipped file has (a larger one is a new violation)
+    if not (cfg.get('kind') == 'qshift' and cfg.get('name') == 'qshift_32' and cfg.get('check') == 'ortho'):
+        return False
+    return ortho_defect('qshift_32') < 1e-8
+PREDS = {'qshift32_ortho': qshift32_ortho}
 def kf_match(cfg, fail, kf):
-    return None
+    return kf_match_generic(cfg, fail, kf, PREDS)
+
+def ortho_defect(n):
+    from pytorch_wavelets.dtcwt import coeffs
+    t = [np.asarray(a).ravel() for a in coeffs.qshift(n)]
+    worst = 0.0
+    for (ia, ib) in ((0, 4), (1, 5)):
+        a, b = t[ia], t[ib]; L = len(a)
+        for s in range(-L // 2, L // 2 + 1):
+            ac = lambda u, v: sum(u[k] * v[k + 2 * s] for k in range(L) if 0 <= k + 2 * s < L)
+            worst = max(worst, abs(ac(a, a) - (s == 0)), abs(ac(b, b) - (s == 0)), abs(ac(a, b)))
+    return worst
 
 def kf_witness_fails(f):
     return oracle_run(f['witness']) is not None
